@@ -106,6 +106,8 @@ def verdicts_unit(res: CheckResult, hist: dict, expected: Dict[int, dict], ic: A
             # a plain, undecorated subclass of a class with invariants: which of its members check the inherited
             # invariants is left undefined by the documentation (inheritance needs DBC)
             continue
+        if getattr(cls, "__abstractmethods__", None):
+            continue    # an abstract class: it has no instances (its subclasses are judged)
         for name, mv in view["members"].items():
             if mv["kind"] not in ("fn", "prop", "pset", "static", "cls"):
                 continue
